@@ -147,6 +147,8 @@ class Run:
             path = rep_dir / f"{self.prop}-{h}.json"
             path.write_text(json.dumps({"property": self.prop, "kind": "input", "seed": self.seed, **v}, indent=1, default=str))
             lines.append(f"VIOLATION property={self.prop} replay={path}")
+            # what failed, in one line, for logs that do not keep the replay file
+            lines.append("  detail: " + " ".join(str(v["what"]).split())[:700])
             nviol += 1
         if self.broken and nviol == 0:
             rep_dir.mkdir(exist_ok=True)
@@ -157,6 +159,7 @@ class Run:
                                         "search": self.notes.get("search", "the property's search oracle found no failing input")},
                                        indent=1, default=str))
             lines.append(f"VIOLATION property={self.prop} replay={path} no-failing-input-found")
+            lines.append("  detail: no longer checks: " + "; ".join(f"{w}: {' '.join(str(d).split())[:300]}" for w, d in self.broken[:3]))
             nviol += 1
         ev = {
             "property_id": self.prop,
@@ -188,8 +191,11 @@ class Run:
             del ev["coverage"]["discharged"], ev["coverage"]["obligations"]
             ev["coverage"]["evaluations"] = max(ev["coverage"]["evaluations"], 1)
         (C.BUILD / f"last_broken_{self.prop}.json").write_text(json.dumps(self.broken, indent=1, default=str))
-        (C.VERIF / "evidence").mkdir(exist_ok=True)
-        (C.VERIF / "evidence" / f"{self.prop}.json").write_text(json.dumps(ev, indent=1, default=str))
+        # evidence/ describes /repo itself: a run against another tree (VERIF_REPO = a scratch worktree with a seeded
+        # change) writes its evidence under _build/ instead
+        evdir = C.VERIF / "evidence" if str(C.REPO) == "/repo" else C.BUILD / "evidence_other_tree"
+        evdir.mkdir(exist_ok=True)
+        (evdir / f"{self.prop}.json").write_text(json.dumps(ev, indent=1, default=str))
         for l in lines:
             print(l)
         print(f"[{self.prop}] tier={self.tier} seed={self.seed} theorems={self.discharged}/{self.obligations} "
